@@ -99,13 +99,45 @@ def gen(rng, tier):
                                                d("IO", recvs=[cut, "w"], sends=[3, "w"]), d("IO", recvs=[len(p)]))
 
 
+def gen_b(rng, tier):
+    big = tier == "thorough"
+    hx = G.hx
+    for i in range(60 if not big else 800):
+        req = pdu(rng, rng.choice([2, 3, 5, 9, 20, 300]))
+        resp = pdu(rng, rng.choice([2, 3, 4, 5, 6, 9, 17, 260, 300, 65539]) if rng.random() < 0.9 else None)
+        stream = resp + (pdu(rng) if rng.random() < 0.5 else b"")
+        n = len(resp)
+        if n <= 24:
+            # every chunking of the response into 1..3 chunks + every partial-send pattern of short requests
+            for c1 in range(1, n + 1):
+                yield "btcp %s - %s %d y" % (hx(req), hx(stream), c1)
+                for c2 in range(1, n - c1 + 1):
+                    yield "btcp %s - %s %d.%d y" % (hx(req), hx(stream), c1, c2)
+                    if c1 + c2 < n and (big or rng.random() < 0.3):
+                        yield "btcp %s - %s %d.%d.%d.1.1 y" % (hx(req), hx(stream), c1, c2, rng.randrange(1, n - c1 - c2 + 1))
+            yield "btcp %s - %s %s y" % (hx(req), hx(stream), ".".join(["1"] * n))
+        for _ in range(4):
+            recvs = ".".join(str(rng.choice([1, 2, 3, 5, 100, 70000])) for _ in range(rng.randrange(0, 8))) or "-"
+            sends = ".".join(str(rng.choice([1, 2, 3, 100])) for _ in range(rng.randrange(0, 6))) or "-"
+            yield "btcp %s %s %s %s y" % (hx(req), sends, hx(stream), recvs)
+        if len(req) <= 20:
+            for off in range(0, len(req) + 1):
+                yield "btcp %s %s %s - y" % (hx(req), ".".join(([str(off)] if off else []) + ["x"]), hx(stream))
+                yield "btcp %s %s %s - y" % (hx(req), ".".join(([str(off)] if off else []) + ["1", "1"]), hx(stream))
+        for fault in ("z", "w", "x"):
+            for pos in range(0, min(n, 12) + 1):
+                yield "btcp %s - %s %s y" % (hx(req), hx(stream), ".".join(([str(pos)] if pos else []) + [fault]))
+        yield "btcp %s - %s - n" % (hx(req), hx(stream))
+        yield "btcp %s - %s - y" % (hx(req), hx(resp[:rng.randrange(0, n)]))
+
+
 CONFIG = Config()
 CONFIG.pid = "C14"
 CONFIG.props_module = "KsiVerif.Props.C14"
 CONFIG.required_theorems = ["reassembly_independent_of_chunking", "same_stream_same_pdus", "delivered_plus_rest_is_stream",
                              "inbuf_bound", "complete_pdu_is_extracted", "wouldBlock_postpones", "accept_sends_next_bytes",
                              "closeSocket_restarts_head", "send_error_closes"]
-CONFIG.engines = [Engine("c14", ["exec_c14.c"], "drv_c14", gen)]
+CONFIG.engines = [Engine("c14", ["exec_c14.c"], "drv_c14", gen), Engine("c14b", ["exec_c14b.c"], "drv_c14", gen_b)]
 CONFIG.rule = ("the real dispatch() of net_tcp_async.c on a scripted socket (libc calls of that translation unit redirected by macros): "
                "server streams of 1..12 PDUs (2..65539 bytes) with EVERY split point (one cut; two cuts for streams <= 24 bytes) for "
                "short streams and random chunkings (1 byte .. larger than the buffer) for long ones; 1..4 queued requests with a partial "
